@@ -17,6 +17,15 @@ theorem eff_none {buf : List (Key × Pkt)} {p : Pkt} {acts : List Act} (h : send
 theorem eff_send {buf : List (Key × Pkt)} {p q : Pkt} {acts : List Act} (h : sends acts = [q]) (hr : q.rhl + 1 = p.rhl) :
     Effect buf buf p acts := Or.inr ⟨q, h, hr, rfl⟩
 
+/-- Location Service actions put nothing on the medium, start no CBF timer and deliver nothing -/
+theorem ls_acts_silent {acts : List Act} {a : Addr} (h : ∀ act ∈ acts, act = .lsSend a ∨ act = .origGuc a) :
+    sends acts = [] ∧ arms acts = [] ∧ dlvs acts = [] := by
+  induction acts with
+  | nil => exact ⟨rfl, rfl, rfl⟩
+  | cons x r ih =>
+    have := ih (fun act ha => h act (by simp [ha]))
+    rcases h x (by simp) with rfl | rfl <;> simpa [sends, arms, dlvs] using this
+
 theorem handle_effect (c : RCfg) (hg : c.gacFix = true) (s : RSt) (p : Pkt) (env : Env) :
     Effect s.buf (handle c s p env).1.buf p (handle c s p env).2 := by
   cases hk : p.kind <;> simp only [handle, hk]
@@ -45,6 +54,12 @@ theorem handle_effect (c : RCfg) (hg : c.gacFix = true) (s : RSt) (p : Pkt) (env
       | exact eff_none rfl
       | exact eff_send (q := fwd p) rfl (by simp only [fwd]; omega)
   case lsRep =>
+    by_cases hme : mid p.de = mid c.loct.self
+    · simp only [hme, if_true]
+      obtain ⟨h1, h2, _⟩ := lsComplete_spec s p.so
+      rw [h2]
+      exact eff_none (ls_acts_silent h1).1
+    simp only [hme, if_false]
     repeat' split
     all_goals first
       | exact eff_none rfl
